@@ -27,6 +27,17 @@ def stream_signature(p):
     return (tuple(sig), shape, p.end[0])
 
 
+def assert_evaluated(p):
+    """the path took the true branch of the `value & mask(n_bits) == value` test"""
+    for (t, op, v) in p.constraints:
+        ex = mir.expand(t, p)
+        if isinstance(ex, tuple) and ex and ex[0] == "binop" and ex[1] == "Eq":
+            s = str(ex)
+            if "wrapping_sub" in s and "'arg', 2, 'value'" in s and "'arg', 3, 'n_bits'" in s and "BitAnd" in s:
+                return True
+    return False
+
+
 def run_all(chk, fsets, tier):
     import facts
     base = facts.load("default")
@@ -75,14 +86,20 @@ def run_all(chk, fsets, tier):
                        detail={"only_default": [str(x)[:200] for x in sorted(s0 - s1, key=str)[:2]], "only_" + fs: [str(x)[:200] for x in sorted(s1 - s0, key=str)[:2]]},
                        sample={"fn": path[-70:], "paths": len(s1)})
         # ---- G2: the assertion in BufBitWriter::write_bits
-        chk.rule("G2.assert", floor=2, doc="both write_bits implementations panic exactly on value & ((1<<n)-1) != value under `checks`")
+        chk.rule("G2.assert", floor=4, doc="both write_bits implementations panic exactly on value & ((1<<n)-1) != value under `checks`, and no successful path skips the test")
         if "checks" in facts.FEATURE_SETS[fs]:
             for e, ety in (("be", rn.BE), ("le", rn.LE)):
                 b = F.one(name="write_bits", trait_is="traits::bits::BitWrite<%s>" % ety, impl_self="impls::buf_bit_writer::BufBitWriter<")
                 okg = False
+                skipped = 0
                 for p in mir.walk(b):
                     if p.end[0] == "diverge" and rn.arg_assert_path(p):
                         okg = True
+                    r = p.ret
+                    if p.end[0] == "return" and isinstance(r, tuple) and r[0] == "agg" and r[3] == "Ok" and not assert_evaluated(p):
+                        skipped += 1
+                chk.expect("G2.assert", "%s@%s.every_path" % (e, fs), skipped == 0,
+                           "BufBitWriter<%s>::write_bits under %s has %d successful path(s) that never evaluate `value & mask(n_bits) == value`: a dirty argument is accepted there" % (e.upper(), fs, skipped))
                 chk.expect("G2.assert", "%s@%s" % (e, fs), okg, "BufBitWriter<%s>::write_bits has no `value & mask(n_bits) == value` assertion under %s" % (e.upper(), fs))
         # ---- G1
         if "checks" in facts.FEATURE_SETS[fs]:
